@@ -2,6 +2,6 @@
 # usage: tools/confirm_tests.sh <worktree> <mutation-dir>   -> prints the pytest summary line with the patch applied
 WT="$1"; MD="$2"
 export OPENBLAS_NUM_THREADS=1 OMP_NUM_THREADS=1
-git -C "$WT" checkout -q -- . && git -C "$WT" apply "$MD/patch.diff" || exit 9
+git -C "$WT" checkout -q -- . && git -C "$WT" checkout -q --detach main && git -C "$WT" apply "$MD/patch.diff" || exit 9
 ( cd "$WT" && PYTHONPATH="$WT/src" timeout 1800 /venv/bin/python -m pytest -q -p no:cacheprovider --timeout=900 2>&1 | tail -1 )
 git -C "$WT" checkout -q -- .
